@@ -38,17 +38,17 @@ enum { D_DT, D_D, NDURP };
 static const char *const durp_name[] = {"dt_strpdtdur", "dt_strpddur"};
 
 /* values, one per held representation */
-#define NVAL	14
+#define NVAL	15
 static struct dt_dt_s vals[NVAL];
 static const char *const val_name[NVAL] = {
 	"ymd date 2012-03-04", "ymd+hms 2012-03-04T12:34:56", "ymcw date 2012-03-01-07", "ywd date 2012-W09-7",
 	"yd date 2012-064", "daisy date", "bizda date 2012-03-02b", "epoch @1330864496", "time 12:34:56",
 	"ldn date 156963", "unknown (all zero)", "ymd 0000-00-00", "ymd+hms 4095-12-31T23:59:59",
-	"ymd+hms with zone 2012-03-04T12:34:56+05:30",
+	"ymd+hms with zone 2012-03-04T12:34:56+05:30", "ymd date 1800-01-01",
 };
 /* which values make sense for dt_strfd (date part) and dt_strft (time part) */
-static const int val_for_d[NVAL] = {1, 1, 1, 1, 1, 1, 1, 0, 0, 1, 1, 1, 1, 0};
-static const int val_for_t[NVAL] = {0, 1, 0, 0, 0, 0, 0, 0, 1, 0, 1, 0, 1, 0};
+static const int val_for_d[NVAL] = {1, 1, 1, 1, 1, 1, 1, 0, 0, 1, 1, 1, 1, 0, 1};
+static const int val_for_t[NVAL] = {0, 1, 0, 0, 0, 0, 0, 0, 1, 0, 1, 0, 1, 0, 0};
 
 #define NDTDUR	16
 static struct dt_dtdur_s dtdurs[NDTDUR];
@@ -80,6 +80,7 @@ init_values(void)
 	dt_make_d_only(&vals[11], DT_YMD);
 	vals[12] = dt_strpdt("4095-12-31T23:59:59", NULL, NULL);
 	vals[13] = dt_strpdt("2012-03-04T12:34:56+05:30", NULL, NULL);
+	vals[14] = dt_strpdt("1800-01-01", NULL, NULL);
 	for (int i = 0; i < NVAL; i++) {
 		if (i != 10 && dt_unk_p(vals[i])) {
 			fprintf(stderr, "c10_lib: value %d (%s) could not be constructed\n", i, val_name[i]);
@@ -527,6 +528,8 @@ format_case(int func, const char *fmt, size_t flen, int vi, int bsz)
 		cmd[0] = '\0';
 		if (func == F_DT && fmt && xe_printable(fmt, flen) && vi == 1) {
 			snprintf(cmd, sizeof(cmd), "dconv -f '%s' 2012-03-04T12:34:56   # (the tool's buffer has 256 bytes)", fmt);
+		} else if (func <= F_D && fmt && xe_printable(fmt, flen) && vi == 14) {
+			snprintf(cmd, sizeof(cmd), "dconv -f '%s' 1800-01-01", fmt);
 		}
 	}
 	if (rc) {
